@@ -36,6 +36,7 @@ Check(e) ==
     [] e.k = "cblock"   -> Report(BlockOk(e), <<"BAD", "int-encoding", l>>)
     [] e.k = "pblock"   -> Report(PBlockOk(e), <<"BAD", "int-decoding", l>>)
     [] e.k = "flags"    -> Report(FlagsOk(e), <<"BAD", "flags", l>>)
+    [] e.k = "mflags"   -> Report(e.back = e.ids, <<"BAD", "flags-in-message", l>>)      \* the set in a message survives compose and parse
     [] e.k = "sshmpint" -> Report(SshMpintOk(e), <<"BAD", IF e.neg THEN "ssh-mpint-negative" ELSE "ssh-mpint", l>>)
     [] e.k = "mpint"    -> Report(MpintOk(e), <<"BAD", IF FixedMpint(e.mag, e.n) = Invalid THEN "mpint-too-long-not-refused" ELSE "mpint", l>>)
     [] e.k = "ts"       -> Report(TsOk(e), <<"BAD", "timestamp", l>>)
